@@ -138,6 +138,17 @@ class C14(C01):
                 ops.append(("comment", b"new comment"))
             progs.append(ops + [("finish",)])
             metas.append(dict(k="mix"))
+        # a creating call REJECTED right after a raw copy (name beyond the 16-bit limit), then more calls: the copy must
+        # stay what it was (the error path must not disturb the pending raw entry)
+        LONG = b"n" * 65536
+        for si, (kind, data, ents) in enumerate(S):
+            n = len(self.src_raw[si]["entries"])
+            for idx in (range(n) if self.tier == "thorough" else [r.randrange(n) for _ in range(4)] if n else []):
+                rc = ("rawcopy", data, idx, None)
+                rej = r.choice([[("file", LONG, self.rand_opts())], [("dir", LONG[:-1], self.rand_opts())], [("symlink", LONG, b"t", self.rand_opts())]])
+                tail = r.choice([[], normal(7), [("rawcopy", data, idx, b"again")], [("dir", b"after", self.rand_opts())]])
+                progs.append(r.choice([[], normal(0)]) + [rc] + rej + tail + [("finish",)])
+                metas.append(dict(k="copy-then-rejected"))
         self.progs = progs
         # every third program runs over a sink that accepts each write only partially (never fails): the copied bytes must
         # arrive complete and in order all the same
